@@ -153,6 +153,10 @@ class Group:
         self.manager = ServerProcess()
         self.manager.start()
         self.gch = self.manager.GcHelper()
+        # a second manager: kind 'xlist' keeps the container in it, so a proxy of X lives inside ANOTHER server process
+        self.manager2 = ServerProcess()
+        self.manager2.start()
+        self.gch2 = self.manager2.GcHelper()
         self.agents = {'D': histex.LocalAgent(), 'A1': histex.Agent('agent1'), 'A2': histex.Agent('agent2')}
         self.seq = 0
         self.rpcs = 0
@@ -163,7 +167,8 @@ class Group:
                 a.close()
             except Exception:
                 pass
-        del self.gch
+        del self.gch, self.gch2
+        self.manager2.shutdown()
         self.manager.shutdown()
 
     def debug(self):
@@ -176,6 +181,7 @@ class Group:
                     a.do('gc')
                 except Exception:
                     pass
+        self.gch2.collect()
         self.gch.collect()
 
     def run_history(self, kind, history):
@@ -185,7 +191,7 @@ class Group:
         D = self.agents['D']
         m = self.manager
         base = set(self.debug())
-        if kind == 'list':
+        if kind in ('list', 'xlist'):
             x = m.list([1, 2, 3])
         elif kind == 'block':
             x = m.MemoryBlock(16)
@@ -196,7 +202,7 @@ class Group:
             raise ValueError(kind)
         xid = x._id
         shm = '/dev/shm/' + x.name.lstrip('/') if kind == 'block' else None
-        c = m.list()
+        c = (self.manager2 if kind == 'xlist' else m).list()
         cid = c._id
         names = {P: [] for P in PLACES}
         D.handles['x0'] = x
@@ -287,7 +293,11 @@ class Group:
             if xid in left and transit_left == 0:
                 return ('leak-after-all-dropped', f'{kind}: after {history} and dropping every proxy the server still hosts X '
                         f'with refcount {left[xid]}')
-            if cid in left:
+            if kind == 'xlist':
+                left2 = {e['id'] for e in self.manager2._debug_info()}
+                if cid in left2:
+                    return ('container-leak', f'{kind}: container still hosted by the second manager after {history}')
+            elif cid in left:
                 return ('container-leak', f'{kind}: container still hosted after {history}: {left}')
             if shm and transit_left == 0 and os.path.exists(shm):
                 return ('shared-memory-leak', f'{shm} still exists after {history} and dropping every proxy')
@@ -314,9 +324,10 @@ class Group:
         """garbage collection inside the server, requested over a connection of its own (a short-lived thread), so that
         the driver thread's connection - and whatever its server-side handler thread still holds - is left alone"""
         import threading
-        t = threading.Thread(target=self.gch.collect)
-        t.start()
-        t.join(60)
+        for g in (self.gch2, self.gch):
+            t = threading.Thread(target=g.collect)
+            t.start()
+            t.join(60)
 
     def oracle(self, kind, s, xid, shm, names, history):
         if total(s) == 0:
@@ -552,7 +563,7 @@ def run(tier, seed, pool, t0):
     stats = []
     hang = False
     try:
-        for kind in ('list', 'block', 'managed') if not os.environ.get('VERIF_C13_ONLY_RACES') else ():
+        for kind in ('list', 'block', 'managed', 'xlist') if not os.environ.get('VERIF_C13_ONLY_RACES') else ():
             cs = ConfigStats('histories', dict(object=kind, depth=depth if kind == 'list' else depth - 1))
             cs.t0 = time.time()
             seen = {INIT: []}
